@@ -205,10 +205,10 @@ Print Assumptions C04_sorted_history_int.
 Definition e (k : Z) (i : N) : Z * N := (k, i).
 
 (* lyd_dup_siblings of the instances xs of a (leaf-)list into a parent that may already hold instances (lyd_dup of
-   src/tree_data.c as fixed: a duplicate is appended only when the first one is the only instance and the last
-   sibling): no NULL dereference, the leader's tree walks the siblings, the siblings are the old ones plus the
-   duplicates; they are sorted as soon as there is a tree, and sorting them (which the next sorted insert does when
-   there is no tree yet) gives exactly the duplicates inserted one by one. *)
+   src/tree_data.c as of /repo 03a093d: the duplicates after the first are appended exactly when the first one is the
+   only instance and the last sibling): no NULL dereference, the leader's tree walks the siblings, the siblings are
+   the old ones plus the duplicates; they are sorted as soon as there is a tree, and sorting them (which the next
+   sorted insert does when there is no tree yet) gives exactly the duplicates inserted one by one. *)
 Theorem C04_lyds_dup_spec :
   forall A (cmp : A -> A -> comparison) (ideq : A -> A -> bool), total_preorder cmp -> is_identity ideq ->
   forall after src_meta (s : lst A) xs, lyds_ok cmp s -> NoDup (sibs s ++ xs) ->
@@ -218,10 +218,10 @@ Theorem C04_lyds_dup_spec :
 Proof. intros A cmp ideq (H1 & H2) Hid after sm. apply lyds_dup_spec; assumption. Qed.
 Print Assumptions C04_lyds_dup_spec.
 
-(* The code BEFORE that fix (fixed = false: the append path is kept whenever the duplicate is the last sibling) does
-   not have this property: duplicating 3, 4 into a parent holding 1, 2 (built by sorted inserts, so with a tree)
-   leaves 4 outside the tree, and the next sorted insert of 5 gives 1 2 3 5 4. *)
-Theorem C04_lyds_dup_before_fix_refuted :
+(* Regression: the code BEFORE /repo d989bef (fixed = false: the append path is kept whenever the duplicate is the last
+   sibling) does not have this property: duplicating 3, 4 into a parent holding 1, 2 (built by sorted inserts, so
+   with a tree) leaves 4 outside the tree, and the next sorted insert of 5 gives 1 2 3 5 4. *)
+Example C04_lyds_dup_before_fix_refuted :
   exists (s : lst (Z * N)) xs x,
     lyds_ok elt_cmp s /\ NoDup (sibs s ++ xs) /\
     match lyds_dup elt_cmp elt_ideq false false false s xs with
@@ -240,7 +240,20 @@ Proof.
   - cbn. repeat constructor; cbn; intuition discriminate.
   - vm_compute. reflexivity.
 Qed.
-Print Assumptions C04_lyds_dup_before_fix_refuted.
+
+(* Regression for /repo 03a093d: three instances that are NOT sorted in the source (4 2 0, e.g. a diff tree) duplicated
+   into an empty parent keep their order (first by the default path, the others appended, no tree); the next sorted
+   insert creates the tree and sorts them. *)
+Example C04_lyds_dup_keeps_source_order :
+  match lyds_dup elt_cmp elt_ideq true false false (mkLst [] None) [e 4 0; e 2 1; e 0 2] with
+  | Some s1 => sibs s1 = [e 4 0; e 2 1; e 0 2] /\ rbt s1 = None /\
+               match lyds_insert elt_cmp elt_ideq s1 (e 3 3) false with
+               | Some s2 => sibs s2 = [e 0 2; e 2 1; e 3 3; e 4 0]
+               | None => False
+               end
+  | None => False
+  end.
+Proof. vm_compute. repeat split. Qed.
 
 (* a non-trivial value: 9 nodes with three equal keys inserted in zig-zag order, two removals; the tree passes
    the checker, has the invariant, and the equal keys 5 stand in insertion order (identities 1, 4, 6) *)
